@@ -36,7 +36,7 @@ var c12Breaks = []string{"", "", "layout-type", "link-type", "step-type", "inspe
 
 func c12Gen(t *rapid.T) c12Case {
 	c := c12Case{Meta: hx.GenMeta(true, false).Draw(t, "meta"), Wrapper: rapid.SampledFrom([]string{"legacy", "dsse"}).Draw(t, "wrapper"),
-		Kind: rapid.SampledFrom([]string{"roundtrip", "corrupt", "corrupt", "corrupt", "truncate", "validator", "validator", "ptype"}).Draw(t, "kind"),
+		Kind: rapid.SampledFrom([]string{"roundtrip", "corrupt", "corrupt", "corrupt", "truncate", "validator", "validator", "ptype", "ptail"}).Draw(t, "kind"),
 		A:    rapid.IntRange(0, 1<<16).Draw(t, "a"), Cut: rapid.IntRange(0, 1<<20).Draw(t, "cut"), InPay: rapid.Bool().Draw(t, "inpayload")}
 	c.Signers = rapid.SliceOfNDistinct(rapid.SampledFrom([]string{"ed25519-0", "ecdsa-p256-0", "ed25519-1"}), 0, 2, rapid.ID[string]).Draw(t, "signers")
 	if c.Kind == "validator" {
@@ -231,6 +231,28 @@ func c12Run(c c12Case, r *hx.Rec) error {
 		}
 		if lerr == nil {
 			return fmt.Errorf("a DSSE envelope with payload type %q (not in-toto's) was loaded as %T", pt, md.GetPayload())
+		}
+		return nil
+	case "ptail":
+		// a DSSE envelope (validly signed over exactly these bytes) whose payload is a complete link or
+		// layout FOLLOWED by something else: not a link or layout
+		tails := []string{" {}", "\n{\"_type\": \"link\"}", "x", " null", ",", "]", "\n\n[1]", " \"tail\""}
+		tree := hx.NormalizeGeneric(c.Meta.JV())
+		payload := append(hx.EncodeGeneric(tree), []byte(tails[c.A%len(tails)])...)
+		k := hx.PoolKey("ed25519-0")
+		e, _ := hx.HarnessSignDSSE(k, hx.InTotoPayloadType, payload)
+		fp := filepath.Join(dir, "ptail.json")
+		if err := hx.WriteDSSEFile(fp, hx.InTotoPayloadType, payload, []map[string]any{e}); err != nil {
+			return nil
+		}
+		r.Nontrivial()
+		r.Key("ptail|%d|%s", c.A%len(tails), hx.GenericString(c.Meta.JV()))
+		md, lerr, pan := c12Load(fp)
+		if pan != nil {
+			return fmt.Errorf("LoadMetadata panicked on a payload with trailing data: %v", pan)
+		}
+		if lerr == nil {
+			return fmt.Errorf("a DSSE envelope whose payload is a document followed by %q was loaded as %T", tails[c.A%len(tails)], md.GetPayload())
 		}
 		return nil
 	case "roundtrip":
@@ -477,7 +499,7 @@ func c12Validator(c c12Case, r *hx.Rec) error {
 			if l.Products == nil {
 				l.Products = hx.MArtifacts{}
 			}
-			l.Products["bad"] = map[string]string{"sha256": []string{"xyz", "", "12 34", "0x12", "12\uff13\uff14", "\uff41\uff42cd", "ab\u0663", "abcd\n", "ab-cd"}[c.A%9]}
+			l.Products["bad"] = map[string]string{[]string{"sha256", "sha256", "sha512", "sha1", "md5", "blake2b", "SHA256", "sha512_256"}[c.A/9%8]: []string{"xyz", "", "12 34", "0x12", "12\uff13\uff14", "\uff41\uff42cd", "ab\u0663", "abcd\n", "ab-cd"}[c.A%9]}
 			m = hx.MMeta{Link: &l}
 			return true
 		case "sig-nonhex":
